@@ -356,6 +356,13 @@ class ClientRun:
 
 
 def run_schedule(cfg: dict, schedule: list, seed: int = 0) -> dict:
+    from .simloop import debug_logging
+
+    with debug_logging(bool(cfg.get("debug"))):
+        return _run_schedule(cfg, schedule, seed)
+
+
+def _run_schedule(cfg: dict, schedule: list, seed: int = 0) -> dict:
     r = ClientRun(cfg, seed)
     try:
         for it in schedule:
